@@ -3,7 +3,7 @@ import ctypes
 
 from hypothesis import strategies as st
 
-from .. import gens
+from .. import gens, model
 from ..core import Prop, Violation
 from .c06 import OPS_WEIGHTED, op_records, run_program
 
@@ -34,7 +34,7 @@ class C19(Prop):
             "non-trivial = a sort (or sorting utility) on an object of >= 3 members that was not already sorted, followed by >= 1 append; "
             "distinct by program hash")
     ASSUMPTIONS = ["node order among members with equal keys after a sort is not asserted (the statement does not claim stability)"]
-    REQUIRED_CLASSES = ["sort", "util_sorting", "sort_unsorted>=3", "nontrivial_program", "big_object>10001"]
+    REQUIRED_CLASSES = ["sort", "util_sorting", "sort_unsorted>=3", "nontrivial_program", "big_object>10001", "key_family", "patch_test_against_near_copy"]
 
     def budget(self, tier):
         return {"workers": 14, "examples": 700 if tier == "quick" else 15000}
@@ -47,7 +47,11 @@ class C19(Prop):
         big = st.fixed_dictionaries({"kind": st.just("big"),
                                      "n": st.sampled_from([1000, 4096, 10000, 10001, 10002, 10003, 12000, 20000, 65536, 65537, 150000, 300000, 400000]),
                                      "order": st.integers(0, 6), "cs": st.integers(0, 1), "how": st.sampled_from([0, 0, 0, 1, 2, 3])})
-        return gens.weighted((79, main), (1, big))
+        # names that agree in a long beginning (longer than any scratch buffer a comparison might use) and differ only behind it
+        fam = st.fixed_dictionaries({"kind": st.just("family"), "prefix_len": st.sampled_from([7, 8, 15, 16, 30, 31, 32, 33, 62, 63, 64, 65, 127, 128, 255, 256, 1000]),
+                                     "prefix_kind": st.integers(0, 3), "n": st.integers(3, 24), "rseed": st.integers(0, 2 ** 31), "cs": st.integers(0, 1),
+                                     "via": st.sampled_from([0, 0, 1, 2, 3])})
+        return gens.weighted((79, main), (1, big), (8, fam))
 
     def run_big(self, lib, case, stats):
         msg = ctypes.create_string_buffer(200)
@@ -72,9 +76,90 @@ class C19(Prop):
         if lib.ledger_live() != live:
             raise Violation("blocks left allocated after sorting a large object", key="leak")
 
+    def run_family(self, lib, case, stats):
+        import random
+        from .. import printing
+        rnd = random.Random(case["rseed"])
+        L = case["prefix_len"]
+        prefix = [b"com.example.Service.Endpoint.", b"k", b"Ab", b"\xc3\xa9z"][case["prefix_kind"]]
+        prefix = (prefix * (L // len(prefix) + 1))[:L]
+        tails = [b"", b"a", b"b", b"B", b"A", b"aa", b"ab", b"Z", b"z", b"0", b"~", b"_", b"alpha", b"Alpha", b"ALPHA", b"beta", b"a" * 40, b"a" * 39 + b"b", b"\xc3\xa9", b"[", b"{", b"@", b"`"]
+        keys = []
+        for _ in range(case["n"]):
+            k = (prefix if rnd.random() < 0.8 else prefix.swapcase()) + rnd.choice(tails)
+            if k not in keys and (case["cs"] or all(model.fold(k) != model.fold(x) for x in keys)):
+                keys.append(k)
+        if len(keys) < 3:
+            keys = [prefix + t for t in (b"b", b"a", b"c")]
+        cs = case["cs"]
+        fold = (lambda x: x) if cs else model.fold
+        obj = lib.cJSON_CreateObject()
+        for i, k in enumerate(keys):
+            lib.cJSON_AddItemToObject(obj, k, lib.cJSON_CreateNumber(float(i)))
+        other = None
+        stats.cls("key_family")
+        stats.nontriv(["family", L, case["prefix_kind"], keys, cs, case["via"]], {"common_prefix_bytes": L, "members": len(keys), "case_sensitive": bool(cs), "via": case["via"]})
+        try:
+            via = case["via"]
+            if via == 0:
+                (lib.cJSONUtils_SortObjectCaseSensitive if cs else lib.cJSONUtils_SortObject)(obj)
+            else:
+                other = lib.cJSON_Duplicate(obj, 1)
+                lib.cJSON_AddItemToObject(other, prefix + b"one more", lib.cJSON_CreateTrue())
+                if via == 1:
+                    p = (lib.cJSONUtils_GeneratePatchesCaseSensitive if cs else lib.cJSONUtils_GeneratePatches)(obj, other)
+                elif via == 2:
+                    p = (lib.cJSONUtils_GenerateMergePatchCaseSensitive if cs else lib.cJSONUtils_GenerateMergePatch)(obj, other)
+                else:
+                    p = lib.cJSON_CreateArray()
+                    op = lib.cJSON_CreateObject()
+                    lib.cJSON_AddItemToObject(op, b"op", lib.cJSON_CreateString(b"test"))
+                    lib.cJSON_AddItemToObject(op, b"path", lib.cJSON_CreateString(b""))
+                    lib.cJSON_AddItemToObject(op, b"value", lib.cJSON_Duplicate(other, 1))
+                    lib.cJSON_AddItemToArray(p, op)
+                    (lib.cJSONUtils_ApplyPatchesCaseSensitive if cs else lib.cJSONUtils_ApplyPatches)(obj, p)
+                if p:
+                    lib.cJSON_Delete(p)
+            for tree in (obj, other):
+                if not tree or (tree == other and via == 3):      # (the patch held a copy of `other`, not `other` itself)
+                    continue
+                got = [ctypes.string_at(lib.shim_key(k)) for k in lib.children(tree)]
+                want_n = len(keys) + (1 if tree == other else 0)
+                if sorted(got) != sorted(keys + ([prefix + b"one more"] if tree == other else [])) or len(got) != want_n:
+                    raise Violation("after sorting (%s), the members are no longer the same: %d before, %d after" % (["SortObject", "GeneratePatches", "GenerateMergePatch", "patch test"][via], want_n, len(got)), key="family-members")
+                bad = [i for i in range(len(got) - 1) if fold(got[i]) > fold(got[i + 1])]
+                if bad:
+                    i = bad[0]
+                    raise Violation("after sorting (%s, %s) %r comes before %r (names with a common beginning of %d bytes)" % (
+                        ["SortObject", "GeneratePatches", "GenerateMergePatch", "patch test"][via], "case-sensitive" if cs else "case-insensitive",
+                        got[i][-24:], got[i + 1][-24:], L), key="family-order")
+                fl, _, _ = lib.walk(tree, 1, 1)
+                if fl:
+                    raise Violation("structural defects after sorting names with a long common beginning", key="family-structure")
+                # a well-formed container afterwards: an append lands at the end and everything is still there
+                lib.cJSON_AddItemToObject(tree, b"appended afterwards", lib.cJSON_CreateNull())
+                kids = lib.children(tree)
+                if len(kids) != want_n + 1 or ctypes.string_at(lib.shim_key(kids[-1])) != b"appended afterwards":
+                    raise Violation("an append after the sort does not land at the end of a complete list (%d members, expected %d)" % (len(kids), want_n + 1), key="family-append")
+            if via == 0:
+                before = [ctypes.string_at(lib.shim_key(k)) for k in lib.children(obj)][:-1]
+                lib.cJSON_Delete(lib.cJSON_DetachItemFromObjectCaseSensitive(obj, b"appended afterwards"))
+                (lib.cJSONUtils_SortObjectCaseSensitive if cs else lib.cJSONUtils_SortObject)(obj)
+                again = [ctypes.string_at(lib.shim_key(k)) for k in lib.children(obj)]
+                if [fold(x) for x in again] != [fold(x) for x in before]:
+                    raise Violation("sorting a sorted object again changes the order of its names", key="family-idempotence")
+        finally:
+            lib.cJSON_Delete(obj)
+            if other:
+                lib.cJSON_Delete(other)
+        if lib.ledger_live() != 0:
+            raise Violation("blocks left allocated after sorting", key="leak")
+
     def run_case(self, lib, case, stats):
         if case.get("kind") == "big":
             return self.run_big(lib, case, stats)
+        if case.get("kind") == "family":
+            return self.run_family(lib, case, stats)
         w, it = run_program(lib, case, stats)
         stats.inner += w.steps
         for f in it.feat:
